@@ -271,6 +271,10 @@ class SimulationMaximumStep(SimulationWithJumpTimes):
 
     @staticmethod
     def create_build_finer_grid_fun(epsilon: float, maturity: float):
+        # a gap equal to a multiple of epsilon up to rounding is not split once more (that left a step of size ~0, or
+        # even a repeated / decreasing time)
+        cap = epsilon * (1 + 1e-12)
+
         def _build_finer_grid_default(self, jump_times, jump_values):
             return jump_times, jump_values
 
@@ -283,10 +287,10 @@ class SimulationMaximumStep(SimulationWithJumpTimes):
             else:
                 last_value = np.zeros(jump_values.shape[:-1] + (1,))
             dts = np.diff(np.append(jump_times, maturity), prepend=0)
-            if not any(dts > epsilon):
+            if not any(dts > cap):
                 return jump_times, jump_values
 
-            positions = np.flatnonzero(dts > epsilon)
+            positions = np.flatnonzero(dts > cap)
             aug_dts = dts
             aug_jump_values = np.concatenate((jump_values, last_value), axis=-1)
             while positions.size > 0:
@@ -298,7 +302,7 @@ class SimulationMaximumStep(SimulationWithJumpTimes):
                     np.where(positions == 0, 0, aug_jump_values[..., positions - 1]),
                     axis=-1,
                 )
-                positions = np.flatnonzero(aug_dts > epsilon)
+                positions = np.flatnonzero(aug_dts > cap)
             aug_jump_times = np.cumsum(aug_dts)
 
             return aug_jump_times[:-1], aug_jump_values[..., :-1]
